@@ -58,7 +58,9 @@ class _Stub:
         return f
 
 
-def reflect_helpers():
+def reflect_helpers(strict=True, broken=None):
+    """strict: the first helper that cannot be reflected raises (fail-closed).  Otherwise such helpers
+    are listed in `broken` as (side, name, reason) and left out."""
     from pygls.lsp._base_server import BaseLanguageServer
     from pygls.lsp._base_client import BaseLanguageClient
     from pygls.lsp.server import LanguageServer
@@ -84,14 +86,21 @@ def reflect_helpers():
                     elif p.default is inspect.Parameter.empty and p.kind in (p.POSITIONAL_ONLY, p.POSITIONAL_OR_KEYWORD, p.KEYWORD_ONLY):
                         raise RuntimeError(f"{cls.__name__}.{name}: unexpected required parameter {pn}")
                 stub.calls.clear()
-                r = fn(inst, **kwargs)
-                if inspect.iscoroutine(r):
-                    loop.run_until_complete(asyncio.wait_for(r, 5))
-                if len(stub.calls) != 1:
-                    raise RuntimeError(f"{cls.__name__}.{name}: {len(stub.calls)} protocol calls")
-                kind, method, params, cb = stub.calls[0]
-                if not isinstance(method, str):
-                    raise RuntimeError(f"{cls.__name__}.{name}: method is not a string")
+                try:
+                    r = fn(inst, **kwargs)
+                    if inspect.iscoroutine(r):
+                        loop.run_until_complete(asyncio.wait_for(r, 5))
+                    if len(stub.calls) != 1:
+                        raise RuntimeError(f"{len(stub.calls)} protocol calls")
+                    kind, method, params, cb = stub.calls[0]
+                    if not isinstance(method, str):
+                        raise RuntimeError("method is not a string")
+                except Exception as ex:
+                    if strict:
+                        raise RuntimeError(f"{cls.__name__}.{name}: {ex!r}")
+                    if broken is not None:
+                        broken.append((side, name, repr(ex)))
+                    continue
                 rows.append({"side": side, "name": name, "method": method,
                              "kind": {"notify": "HNotify", "send_request": "HSendRequest",
                                       "send_request_async": "HSendRequestAsync"}[kind],
